@@ -46,6 +46,9 @@ type c06Case struct {
 	Project *gen.Project `json:"project"` // Types never contains @main itself
 	Reg     bool         `json:"reg"`     // the root is registered as @main (file name @main); else file name "root"
 	Wiring  int          `json:"wiring"`
+	// OptDefault: every schema object is created with AreKeysOptionalByDefault, so a member is required only when
+	// it says optional: false
+	OptDefault bool `json:"opt_default,omitempty"`
 }
 
 func c06WiringName(c c06Case) string {
@@ -60,6 +63,9 @@ func c06WiringName(c c06Case) string {
 	if c.Wiring == c06WireDeepCopy {
 		w = "types on the root and on every type"
 	}
+	if c.OptDefault {
+		w += "; keys optional by default"
+	}
 	return "[" + reg + "; " + w + "]"
 }
 
@@ -69,12 +75,13 @@ func c06Key(c c06Case) string { return c06WiringName(c) + " " + projectKey(c06Te
 
 // ---- the library side ------------------------------------------------------------
 
-func c06Build(pt project, reg bool, wiring int) (*jschema.JSchema, error) {
+func c06Build(pt project, reg bool, wiring int, optDefault bool) (*jschema.JSchema, error) {
 	name := "root"
 	if reg {
 		name = c06RootName
 	}
 	s := jschema.New(name, pt.Root)
+	s.AreKeysOptionalByDefault = optDefault
 	type named struct {
 		name string
 		s    *jschema.JSchema
@@ -82,6 +89,7 @@ func c06Build(pt project, reg bool, wiring int) (*jschema.JSchema, error) {
 	var all []named
 	for _, t := range pt.Types {
 		o := jschema.New(t.Name, t.Text)
+		o.AreKeysOptionalByDefault = optDefault
 		if err := s.AddType(t.Name, o); err != nil {
 			return nil, fmt.Errorf("AddType(%s): %w", t.Name, err)
 		}
@@ -91,6 +99,7 @@ func c06Build(pt project, reg bool, wiring int) (*jschema.JSchema, error) {
 		m := s
 		if wiring != c06WireShallowSame {
 			m = jschema.New(c06RootName, pt.Root)
+			m.AreKeysOptionalByDefault = optDefault
 		}
 		if err := s.AddType(c06RootName, m); err != nil {
 			return nil, fmt.Errorf("AddType(%s): %w", c06RootName, err)
@@ -127,7 +136,7 @@ func c06RunLib(c c06Case) c06Lib {
 	pt := c06Texts(c)
 	out.Stage = "build"
 	out.Panic = mon.Guard(func() {
-		s, err := c06Build(pt, c.Reg, c.Wiring)
+		s, err := c06Build(pt, c.Reg, c.Wiring, c.OptDefault)
 		if err != nil {
 			out.BuildErr = err.Error()
 			return
@@ -160,6 +169,16 @@ func c06RunLib(c c06Case) c06Lib {
 }
 
 // ---- the reference side ----------------------------------------------------------
+
+// c06Optional tells whether a member may be left out: it says optional: true, or - with keys optional by default -
+// it does not say optional: false.
+func c06Optional(c c06Case, m *gen.Node) bool {
+	if c.OptDefault {
+		v, ok := m.Rule("optional")
+		return !ok || v.Lit != "false"
+	}
+	return c06IsTrue(m, "optional")
+}
 
 func c06IsTrue(n *gen.Node, rule string) bool {
 	v, ok := n.Rule(rule)
@@ -222,7 +241,7 @@ func c06Reference(c c06Case) c06Ref {
 			return true // []
 		case gen.KObject:
 			for _, m := range n.Children {
-				if c06IsTrue(m, "optional") {
+				if c06Optional(c, m) {
 					continue // left out
 				}
 				if !val(m) {
@@ -261,7 +280,7 @@ func c06Reference(c c06Case) c06Ref {
 		var members func(o *gen.Node, depth int)
 		members = func(o *gen.Node, depth int) {
 			for _, m := range o.Children {
-				if c06IsTrue(m, "optional") || c06IsTrue(m, "nullable") {
+				if c06Optional(c, m) || c06IsTrue(m, "nullable") {
 					continue
 				}
 				switch {
@@ -459,7 +478,7 @@ func c06Clone(c c06Case) c06Case {
 	for _, t := range c.Project.Types {
 		p.Types = append(p.Types, gen.NamedNode{Name: t.Name, Node: c06CloneNode(t.Node)})
 	}
-	return c06Case{Project: p, Reg: c.Reg, Wiring: c.Wiring}
+	return c06Case{Project: p, Reg: c.Reg, Wiring: c.Wiring, OptDefault: c.OptDefault}
 }
 
 // c06Nodes lists every node of the project in a fixed order.
@@ -1132,7 +1151,7 @@ func (g *c06Gen) setLink(o *gen.Node, v *gen.Node) {
 }
 
 func c06Random(rng *rand.Rand) (c06Case, string) {
-	c := c06Case{Reg: rng.IntN(6) != 0}
+	c := c06Case{Reg: rng.IntN(6) != 0, OptDefault: rng.IntN(6) == 0}
 	k := rng.IntN(7) // further types: at most 7 types in all
 	mode := rng.IntN(8)
 	if mode >= 5 {
